@@ -307,6 +307,9 @@ type Ev struct {
 
 type IdRef struct{ Store, Id string }
 
+// childKey marks a deleted person that had child-store data ("deleting through either store removes both parts").
+func childKey(id string) IdRef { return IdRef{"child:" + StPeople, id} }
+
 type Outcome struct {
 	OK      bool
 	Classes []string // acceptable error classes when !OK
@@ -456,7 +459,11 @@ func (m *Model) applyCreate(op Op, now int64) Outcome {
 				return reject("exists", EcAny)
 			}
 			// creating a child over an id that exists without that child's data: no property says whether
-			// this is to be accepted; not executed (DESIGN section 7.6)
+			// this is to be accepted; not executed (DESIGN section 7.6) - except where C16 does say it: a system
+			// entity cannot be (re-)created or changed from an ordinary context
+			if p.Sys && !op.Sys {
+				return reject("sys-create-over-existing", EcAny)
+			}
 			return Outcome{Skipped: true, Why: "child-create-over-existing-parent"}
 		}
 		var a acc
@@ -857,6 +864,9 @@ func (m *Model) applyDelete(op Op) Outcome {
 		}
 		delete(m.People, id)
 		out.Deleted = append(out.Deleted, IdRef{StPeople, id})
+		if p.HasStaff || p.HasPX {
+			out.Deleted = append(out.Deleted, childKey(id))
+		}
 		return out
 	case StBadges:
 		if _, ok := m.Badges[id]; !ok {
